@@ -276,6 +276,11 @@ class PollExecutor(CanCustomizeBind, Executor):
         finally:
             metrics.POLL_TOTAL.labels(executor=self._name).inc()
             metrics.POLL_TIME.labels(executor=self._name).inc(monotonic() - now)
+            # This frame stays reachable from the traceback of an exception
+            # raised by the poll function, and so from every future failed by
+            # it: don't let it keep the executor or the futures alive.
+            del descriptors
+            self = None  # pylint: disable=self-cls-assignment
 
     def shutdown(self, wait=True, **_kwargs):
         if self._shutdown():
